@@ -21,11 +21,6 @@ Proof. intros []; vm_cast_no_check (eq_refl true). Qed.
 
 (* all2 = all + re-validation of the stored deadline when the timer fires: the STRONG reading of
    "never before the deadline" (boundary B11) holds, also for a caller that kept a stale timer *)
-Definition strong_tm_inv (d : sysdef) : state -> bool := inv_and [tm_inv d; inv_no_early_strong d].
-Definition strong_one_inv (c : caller) (d : sysdef) : state -> bool :=
-  inv_and [fixed_one_inv c d; inv_no_early_strong d].
-Definition strong_extend_inv (d : sysdef) : state -> bool :=
-  inv_and [inv_ok; inv_no_early_strong d; inv_expiry_wakes d].
 Lemma fixed2_read_tm_checked : forall a, let d := sys_tm (fixed_skel FixAll2) Reader a in scheck d (strong_tm_inv d) = true.
 Proof. intros []; vm_cast_no_check (eq_refl true). Qed.
 Lemma fixed2_write_tm_checked : forall a, let d := sys_tm (fixed_skel FixAll2) Writer a in scheck d (strong_tm_inv d) = true.
